@@ -130,7 +130,7 @@ def min_certificate(cx, g, a, b, x, v, tv, delta, tvlow=None):
 
     def side(sgn):
         end = a if sgn < 0 else b
-        for fr in (0.9, 0.7, 0.5, 0.97, 0.3):
+        for fr in (0.03, 0.08, 0.2, 0.4, 0.7, 0.9, 0.97):      # the smallest neighbourhood U whose end slopes can be certified
             p = x + sgn * fr * delta
             if (sgn < 0 and p <= a) or (sgn > 0 and p >= b):
                 return end, []
@@ -164,9 +164,9 @@ def min_certificate(cx, g, a, b, x, v, tv, delta, tvlow=None):
                 fend = g(b if right else a)
                 break
     if conv is None:
-        for mult in (256, 64, 16, 4, 1.5):
-            lo, hi = max(a, x - mult * delta), min(b, x + mult * delta)
-            lo, hi = min(lo, xl), max(hi, xr)
+        wu = xr - xl
+        for mult in (200, 50, 12, 3, 0.5, 0.0):
+            lo, hi = max(a, xl - mult * wu), min(b, xr + mult * wu)
             cells, good = cx.tile(g, lo, hi, lambda c: cx.lowdd(c) > 0, wmin, maxcells=400)
             if good:
                 vlo, vhi, conv = lo, hi, cells
